@@ -27,6 +27,16 @@ def wf(meta, table, sets):
             and all(s[0] != R.ACNT for s in sets))
 
 
+def norm_set(s):
+    """what the reader makes of a set vector of any non-zero length (C17_round_trip_normalises): label + exactly 256 slots"""
+    return [s[0]] + [(s[i] if i < len(s) else None) for i in range(1, 257)]
+
+
+def in_wider_domain(meta, table, sets):
+    """257 table entries, sets of ANY non-zero length: the normalised value must be read back"""
+    return len(table) == 257 and all(len(s) >= 1 for s in sets) and wf(meta, table, [norm_set(s) for s in sets])
+
+
 class C17(PropertyCheck):
     pid = "C17"
     source_tables = ["ASet", "BIN_HEADER"]   # tables / constants regenerated from /repo's source (gen/srctables.py)
@@ -34,7 +44,8 @@ class C17(PropertyCheck):
             "slots and the last slot of the group; thorough: 2^16 patterns over 16 slots) for groups 0, 3 and 7, cross patterns over two "
             "groups, dense / sparse / entirely empty sets, labelled and unlabelled sets, the last slot of every group, empty-string "
             "names, meta absent / empty / present, tables empty / full / random / first or last entry alone, 0-5 (once 12) sets per file, values outside the quantifier "
-            "(short, long and empty sets, tables of other lengths) for the correspondence only, the game file FE14Aset_Test.bin.  "
+            "(empty set vectors, tables of other lengths, a set carrying the table label) for the correspondence only; short and long set "
+            "vectors with the normalised value as expected result; the game file FE14Aset_Test.bin.  "
             "Non-trivial = at least one present slot; distinct = distinct case line.")
     assumptions = ["A-codec: strings are given in Shift-JIS encoded form; encoding_rs decodes/encodes the generated alphabet losslessly",
                    "the label AnimClipNameTable is reserved by the format: a set carrying it makes the table lookup depend on the hash "
@@ -108,6 +119,14 @@ class C17(PropertyCheck):
         add(None, none_table, [[b"only-label"]], "outside")
         add(None, none_table, [[None, b"a", None, b"b"]], "outside")
         add(None, none_table, [set_with(rng, [1, 256]) + [b"extra", None, b"extra2"]], "outside")
+        # set vectors of other lengths (wider domain: the normalised value is expected back)
+        for _ in range(30 if tier == "quick" else 600):
+            sets = []
+            for _ in range(rng.choice([1, 1, 2, 3])):
+                n = rng.choice([1, 2, 32, 33, 34, 256, 258, rng.randint(1, 300)])
+                dens = rng.choice([0.0, 0.05, 0.5, 1.0])
+                sets.append([rng.choice([None, b"l"])] + [(R.rand_string(rng) if rng.random() < dens else None) for _ in range(n - 1)])
+            add(rng.choice([None, b"m"]), none_table, sets, "other-lengths")
         add(None, [], [set_with(rng, [1])], "outside")
         add(None, [b"a", None, b"b"], [], "outside")
         add(b"m", [None] * 300, [set_with(rng, [2])], "outside")
@@ -152,8 +171,9 @@ class C17(PropertyCheck):
                 return "accepted image cannot be re-serialized"
             return None
         meta, table, sets, _ = R.parse_aset_value(toks[2:])
-        if not wf(meta, table, sets):
+        if not in_wider_domain(meta, table, sets):
             return None
+        sets = [norm_set(s) for s in sets]
         if impl_out == "PANIC":
             return "implementation PANIC"
         parts = dict(p.split("=", 1) for p in impl_out.split(" | "))
@@ -225,7 +245,9 @@ MANIFEST = dict(
          "present/absent pattern: the writer builds exactly the archive of the cell list header ++ 257 string cells ++ per set [main flags "
          "word, per non-empty group its flags word and one string cell per present slot] with AnimClipNameTable at 12 and each set label "
          "on the first byte of its record (C17_writer_builds_cells, C17_write_set); the reader returns the value on every archive showing "
-         "that layout and those labels (C17_reader_inverts_layout, C17_round_trip_archive) - bit lemmas testbit(compile_flags bs) j = "
+         "that layout and those labels (C17_reader_inverts_layout, C17_round_trip_archive; for set vectors of any non-zero length the "
+         "normalised value is read back: C17_round_trip_normalises; whatever the reader returns from any archive is a fixed point of "
+         "write -> read: C17_reader_output_round_trips) - bit lemmas testbit(compile_flags bs) j = "
          "nth j bs for the 32-bit group words and the 8-bit main mask. Space: a set record is 4*(1 + #non-empty groups + #present slots) "
          "bytes = what the writer allocates, the data region is 12 + 4*257 + the sum over sets, an all-absent group contributes no cell, an "
          "all-absent set costs 4 bytes, and that size is the data-size field of the file image (C17_space_set, C17_space_file, "
